@@ -41,8 +41,10 @@ Min(a, b) == IF a <= b THEN a ELSE b
 
 (* longest common prefix of a byte sequence with the preface *)
 Lcp(s) == LET n == Min(Len(s), PLen)
-          IN  CHOOSE k \in 0..n : /\ \A i \in 1..k : s[i] = Preface[i]
-                                   /\ (k = n \/ s[k+1] # Preface[k+1])
+          IN  CHOOSE k \in 0..n :
+                  /\ \A i \in 1..k : s[i] = Preface[i]
+                  /\ (k = n \/ s[k+1] # Preface[k+1])
+ASSUME Lcp(Preface) = PLen /\ Lcp(<<80, 82, 88>>) = 2 /\ Lcp(<<>>) = 0 /\ Lcp(<<71, 69, 84>>) = 0
 
 Ids(a, b) == [i \in 1..(IF b >= a THEN b - a + 1 ELSE 0) |-> a + i - 1]   \* <<a, a+1, .., b>>
 IsPrefix(s, t) == Len(s) <= Len(t) /\ \A i \in 1..Len(s) : s[i] = t[i]
